@@ -36,6 +36,7 @@ type Solver struct {
 	defined map[*Term]bool
 	declUF  map[string]bool
 	dead    bool
+	tactic  string // tactic to try first (default qfnra-nlsat)
 	nlsat   bool // domain X: try z3's nlsat tactic first (the incremental core rarely decides NRA)
 	nNlsat  int
 }
@@ -243,7 +244,11 @@ func (s *Solver) Check(ctx *TermCtx, extra *Term, keep bool) SatResult {
 	t0 := time.Now()
 	res := Unknown
 	if s.nlsat && s.kind != SolverCVC5 {
-		s.send(fmt.Sprintf("(check-sat-using (try-for qfnra-nlsat %d))", s.timeoutMs))
+		tac := s.tactic
+		if tac == "" {
+			tac = "qfnra-nlsat"
+		}
+		s.send(fmt.Sprintf("(check-sat-using (try-for %s %d))", tac, s.timeoutMs))
 		line := s.readLine()
 		for line != "sat" && line != "unsat" && line != "unknown" && line != "timeout" && !strings.HasPrefix(line, "(error") && !s.dead {
 			line = s.readLine()
